@@ -9,7 +9,8 @@ PROP = dict(
               "variation_model_ignores_hash_order", "preliminary_glyph_order_ignores_hash_order",
               "name_record_order_ignores_hash_order", "checked_name_records_are_canonical",
               "sorting_by_a_total_order_erases_arrival_order", "name_record_sort_is_an_ordered_permutation",
-              "name_record_sort_idempotent"],
+              "name_record_sort_idempotent", "table_directory_ignores_insertion_order",
+              "checked_table_directory_is_canonical"],
     prelude="From Coq Require Import List ZArith NArith Bool.\nFrom FV.C01 Require Import Model.\nImport ListNotations.",
     harness_args=lambda tier, seed: ["--seed", str(seed), "--n", str(N[tier]), "--corpus", str(CORPUS[tier]),
                                      "--builds", str(BUILDS[tier])],
